@@ -43,6 +43,14 @@ CHECKS = {
    text="Bounded-exhaustive input enumeration: every string of length <= 4 (quick) / <= 5 (thorough) over an 18-character alphabet plus 91 boundary literals, as each of gpu-fraction / gpu-memory / gpu-fraction-num-devices, crossed with presence combinations of the other annotations, GPU limits on container / init container, named fraction container {absent, regular, init, missing} and sharing enabled/disabled (4.3M pods quick, 77M thorough). Every pod runs through the REAL admission mutator (twice) and validator, scheduler NewTaskInfo, binder validator and helpers, pod-group-controller extractors; one representative per accepted class additionally through a real scheduler cycle and the binder gpusharing PreBind. Oracle: an exact big.Rat reference parser and the six agreement clauses of the statement.",
    note="Trusted: the reference parser (~150 lines), the fake client used for the end-to-end stage. Values outside the alphabet / longer than the bound are not explored.",
    technique="bounded-exhaustive input enumeration against a reference model (real admission, scheduler, binder and controller parsers on every input)"),
+ "C14": dict(engine="clustermc", cat="model_checking", ref="§5 C14",
+   text="In-session ground-truth recomputation at EVERY step of every explored real cycle: a monitor plugin (last in the tier list) registers an Allocate/Deallocate event handler and probes after each action; at each of these points every node's Used / Idle / Releasing (cpu, memory, whole GPUs), per-device used/allocated/releasing memory and pod membership, every workload's Allocated, status index, active counter and pod-set counters, and every queue's allocated amount up the parent chain are recomputed from the pods and their statuses and compared with what the session believes; vector and structured representations are compared. Runs over the share, gang and victims grammars (4065 initial worlds, depth 2, ~16k cycles, every solver simulation step inside them).",
+   note="Trusted: the recomputation (closed forms for cpu/memory/whole GPUs without sharers and per-device memory; for whole-GPU counters of nodes with sharers a differential rebuild of a fresh NodeInfo from the same pods in two orders), the event tracker that supplies the deliberately double-kept 'releasing instance' of a fractional pod moved between devices of one node. Queue values are read through ssn.QueueAllocatedResources (whole GPUs only above 1, mirrored in the oracle).",
+   technique="explicit-state model checking of the implementation with in-session invariant evaluation at every simulation step (event-handler probe)"),
+ "C09": dict(engine="inputmc", cat="exploration", ref="§5 C09",
+   text="Bounded-exhaustive enumeration of sibling queue sets for the REAL resource_division.SetResourcesShare: n=1,2 full lattice and n=3 sub-lattices (totals, deserved incl. unlimited, limit, over-quota weight incl. 0, priority, request, historical usage, k) evaluated under every insertion order of the queue map (the harness owns Go map order) plus seeds and tie-break variants (33M evaluations quick), and 150k queue trees of 2-3 levels through the real proportion plugin; the laws of the statement (lower bound, upper bound, surplus conservation, surplus left only if all weighted queues satisfied, priority dominance up to rounding, weight monotonicity, children within parent, order independence) are checked on every result.",
+   note="Trusted: the law implementations (written from docs/fairness, weakest reading where the docs are silent; assumptions listed in evidence), the map-order overlay. Values outside the lattice are not explored; internal deadline => exhaustive:false.",
+   technique="bounded-exhaustive input enumeration with all map-iteration orders against algebraic laws"),
 }
 
 NOT_APPLICABLE = []
